@@ -30,7 +30,7 @@ type rsFineVariant struct {
 	// LateRelease (Kind 0): the held task stays inside OnError until the next connection is established and the
 	// After requests were submitted: nothing younger may run before the held request has finished
 	LateRelease bool
-	Faults  []rsFault
+	Faults      []rsFault
 }
 
 func (v *rsFineVariant) describe() map[string]interface{} {
@@ -131,8 +131,7 @@ func rsRunFine(v *rsFineVariant) (rsObs, string) {
 		}
 	}
 	pushed := 0
-	submit := func(op rsOp) {
-		pushed++
+	submitCall := func(op rsOp) {
 		switch op.Kind {
 		case 'p':
 			m := &mqtt.Message{Topic: op.Topic, QoS: mqtt.QoS(op.QoS), Retain: op.Retain,
@@ -147,12 +146,22 @@ func rsRunFine(v *rsFineVariant) (rsObs, string) {
 		case 'u':
 			_ = cli.Unsubscribe(ctx, op.Topics...)
 		}
+	}
+	submit := func(op rsOp) {
+		pushed++
+		done := make(chan struct{})
+		go func() { submitCall(op); close(done) }()
+		select {
+		case <-done:
+		case <-time.After(rsWait):
+			obs.Stuck = "a request call (Publish/Subscribe/Unsubscribe) did not return"
+		}
 		lab("LSubmit (" + op.coq() + ")")
 	}
 	barrier := func(where string) bool {
 		ch := make(chan struct{})
 		pushed++
-		if err := rc.VerifBarrier(ch); err != nil {
+		if err := rsBarrierPush(rc, ch, rsWait); err != nil {
 			obs.Stuck = where + ": " + err.Error()
 			return false
 		}
